@@ -335,8 +335,8 @@ func bgvRoundTripScenario(cf bgvu.Conf, batched, signed bool) engine.Scenario {
 }
 
 // exhaustScenario (t = 17, 97): every single-slot vector over the whole of Z_t at every position, and every
-// vector over the alphabet {0, 1, t-1} of length <= 8.
-func bgvExhaustScenario(cf bgvu.Conf, batched, signed bool) engine.Scenario {
+// vector over the alphabet {0, 1, t-1} of length <= 8 (thorough: <= 10).
+func bgvExhaustScenario(cf bgvu.Conf, batched, signed bool, tier string) engine.Scenario {
 	name := fmt.Sprintf("bgv/%s/exhaust/batched=%v/signed=%v", cf.Name, batched, signed)
 	return engine.Scenario{Name: name, Bound: -1, Fn: func(c *engine.Chooser) {
 		w := getBgvWorld(cf)
@@ -371,6 +371,9 @@ func bgvExhaustScenario(cf bgvu.Conf, batched, signed bool) engine.Scenario {
 			c.Cover("bgv-exhaust", "alphabet3")
 			al := []uint64{0, 1, t - 1}
 			maxLen := 8
+			if tier == "thorough" {
+				maxLen = 10
+			}
 			if maxLen > n {
 				maxLen = n
 			}
@@ -456,9 +459,10 @@ func bgvShortDecodeScenario(cf bgvu.Conf) engine.Scenario {
 }
 
 // productScenario: encoded plaintexts multiply slot-wise. Two independent routes:
-//  (1) EncodeRingT both vectors, multiply the polynomials over Z_t with the schoolbook negacyclic product,
-//      DecodeRingT at scale s1*s2;
-//  (2) Embed (no t^-1) into R_Q, multiply there (NTT, pointwise), RingQ2T without scaling, DecodeRingT.
+//
+//	(1) EncodeRingT both vectors, multiply the polynomials over Z_t with the schoolbook negacyclic product,
+//	    DecodeRingT at scale s1*s2;
+//	(2) Embed (no t^-1) into R_Q, multiply there (NTT, pointwise), RingQ2T without scaling, DecodeRingT.
 func bgvProductScenario(cf bgvu.Conf) engine.Scenario {
 	name := "bgv/" + cf.Name + "/product"
 	return engine.Scenario{Name: name, Bound: -1, Fn: func(c *engine.Chooser) {
@@ -675,7 +679,7 @@ func bgvScenarios(tier string) []engine.Scenario {
 			for _, s := range []bool{false, true} {
 				scs = append(scs, bgvRoundTripScenario(cf, b, s))
 				if cf.T <= 97 {
-					scs = append(scs, bgvExhaustScenario(cf, b, s))
+					scs = append(scs, bgvExhaustScenario(cf, b, s, tier))
 				}
 			}
 		}
